@@ -6,6 +6,89 @@ from ..model import op_place, op_local, place_local, is_bare, trace_back, proven
 T = "tantivy::schema::field_type::Type"
 
 
+def r7(rep, prog):
+    """a term handed to the postings writer fits the key of the term hash map"""
+    import re
+    from ..rules import dominating_guards, closure_capture
+    R = "C07-R7"
+    rep.rule(R, "no term is silently cut: the in-memory term index keys its entries by the serialized term (field id, type, JSON path, value bytes) and truncates keys to u16::MAX bytes — two terms that share their first 65535 bytes become one, with merged postings, and lookups with the real term find nothing. So wherever a variable-length value is put into the term buffer and subscribed (the token callback of PostingsWriter::index_text, shared by text and JSON fields; the bytes arm of SegmentWriter::index_document), a length test dominates the subscribe; and in index_text, where the buffer already holds a prefix of varying length (a JSON path), that test involves the length of the prefix (IndexingTerm::len_bytes), not only the token's")
+    VAR = re.compile(r"indexing_term::IndexingTerm::(append_bytes|set_bytes|append_type_and_str|set_text|append_str)$")
+    SUB = re.compile(r"::subscribe$")
+    LEN = re.compile(r"::len$|IndexingTerm::len_bytes$")
+    n = 0
+    for fid, b in sorted(prog.bodies.items()):
+        if "::tests::" in fid or b.kind in ("const", "static", "promoted") or not fid.lstrip("<").startswith("tantivy::"):
+            continue
+        vs = [(bi, t) for bi, t in b.calls() if VAR.search(t.get("f") or "")]
+        ss = [bi for bi, t in b.calls() if SUB.search(t.get("f") or "") and "PostingsWriter" in (t.get("f") or "")]
+        if not vs or not ss:
+            continue
+        for vb, vt in vs:
+            subs = [x for x in ss if x in b.reachable((vb,))]
+            if not subs:
+                continue
+            n += 1
+            has_len_guard = False
+            involves_prefix = False
+            for sb, through, gl in dominating_guards(b, vb):
+                lv = provenance(b, gl)
+                calls = {x[1] for x in lv if x[0] == "call"}
+                if any(LEN.search(c) for c in calls) or any(x[0] == "param" for x in lv) and any(x[0] in ("const", "uneval") for x in lv):
+                    if any(LEN.search(c) for c in calls):
+                        has_len_guard = True
+                    if any(c.endswith("IndexingTerm::len_bytes") for c in calls):
+                        involves_prefix = True
+                    # captured values of a closure: follow them into the enclosing function
+                    if "{closure" in fid:
+                        for x in lv:
+                            pass
+                        tr_fields = [y for y in trace_back(b, gl) if y[0] == "field"]
+                if "{closure" in fid and not involves_prefix:
+                    # any captured upvar in the condition that derives from len_bytes in the parent
+                    work = [gl]
+                    seen = set()
+                    while work:
+                        l = work.pop()
+                        if l in seen:
+                            continue
+                        seen.add(l)
+                        for df in b.defs().get(l, []):
+                            if df[0] == "stmt":
+                                st = df[3]
+                                srcs = [st.get("p")] if st.get("r") in ("ref", "discr") else [op_place(o) for o in st.get("o", [])]
+                                for pl in srcs:
+                                    if pl is None:
+                                        continue
+                                    from ..model import place_proj
+                                    pj = place_proj(pl)
+                                    if place_local(pl) == 1 and pj:
+                                        idxs = [e for e in pj if isinstance(e, str) and e.startswith("f:")]
+                                        if idxs:
+                                            k = int(idxs[0].split(":")[1])
+                                            cap = closure_capture(prog, fid, k)
+                                            if cap is not None and op_local(cap[1]) is not None:
+                                                plv = provenance(cap[0], op_local(cap[1]))
+                                                arith = tuple(y[1] for y in plv if y[0] == "call" and re.search(r"::(saturating_sub|checked_sub|wrapping_sub|min|max)$", y[1]))
+                                                if arith:
+                                                    plv = provenance(cap[0], op_local(cap[1]), extra_transparent=arith)
+                                                if any(y[0] == "call" and y[1].endswith("IndexingTerm::len_bytes") for y in plv):
+                                                    involves_prefix = True
+                                    else:
+                                        work.append(place_local(pl))
+                            elif df[0] == "call":
+                                for o in df[2].get("args", []):
+                                    if op_local(o) is not None:
+                                        work.append(op_local(o))
+            needs_prefix = (vt.get("f") or "").endswith("append_bytes")
+            ok = has_len_guard and (involves_prefix or not needs_prefix)
+            rep.check(ok, R, "%s: the value put into the term by %s fits the hash-map key" % (short(fid), (vt.get("f") or "").split("::")[-1]),
+                      "length test%s dominates the subscribe" % (" involving the prefix length" if needs_prefix else ""),
+                      "`%s` puts a variable-length value into the term buffer (%s) and subscribes it %s: the term index cuts keys at 65535 bytes, so long values that share a prefix are merged into one term "
+                      "(two JSON strings sharing 65526 bytes: one term with doc_freq 2; two 70000-byte values of a bytes field: one term) and cannot be found by the real term"
+                      % (fid, (vt.get("f") or "").split("::")[-1], "after a length test that ignores the prefix already in the buffer (field id, type, JSON path)" if has_len_guard else "without any length test"), site=site(b, vb))
+    rep.floor(R, "variable-length term sites followed by a subscribe", n, 2)
+
+
 CURSOR_CONFIG = {
     ("postings::block_segment_postings::BlockSegmentPostings", "requested_option"):
         "what the user asked for when the cursor was opened (added by the F47 repair); reset() keeps it and re-derives freq_reading_option from it for the new term",
@@ -142,6 +225,7 @@ def run(rep, prog, tier):
     r3(rep, prog)
     r5(rep, prog)
     r6(rep, prog)
+    r7(rep, prog)
     r4(rep, prog)
     tc = get_body(rep, prog, "C07-R1", T + "::to_code")
     fc = get_body(rep, prog, "C07-R1", T + "::from_code")
